@@ -15,6 +15,10 @@ mod verif_c07 {
             b'A' + (n - 10)
         }
     }
+    /// `c` is the hex digit of `n` in either case (the statement does not prescribe the case of %HH)
+    pub fn hexeq(c: u8, n: u8) -> bool {
+        c == hex(n) || (n >= 10 && c == b'a' + (n - 10))
+    }
     /// characters that delimit segments / pairs / fragments or that form_urlencoded rewrites
     pub fn structural(b: u8) -> bool {
         matches!(b, b'/' | b'?' | b'#' | b'&' | b'=' | b'+' | b'%' | b' ' | b';') || b < 0x20 || b == 0x7f
@@ -77,7 +81,7 @@ mod verif_c07 {
                 if unreserved(b) {
                     assert!(out.len() == 1 && out[0] == b);
                 } else {
-                    assert!(out.len() == 3 && out[0] == b'%' && out[1] == hex(b >> 4) && out[2] == hex(b & 15));
+                    assert!(out.len() == 3 && out[0] == b'%' && hexeq(out[1], b >> 4) && hexeq(out[2], b & 15));
                 }
                 // corollary: no structural character survives unescaped
                 assert!(!structural(out[0]) || out[0] == b'%');
@@ -115,7 +119,7 @@ mod verif_c07 {
         if unreserved(b) {
             assert!(n == 1 && out[0] == b);
         } else {
-            assert!(n == 3 && out[0] == b'%' && out[1] == hex(b >> 4) && out[2] == hex(b & 15));
+            assert!(n == 3 && out[0] == b'%' && hexeq(out[1], b >> 4) && hexeq(out[2], b & 15));
         }
         kani::cover!(true);
     }
@@ -131,8 +135,8 @@ mod verif_c07 {
             ub.push_escaped(s);
             let out = &ub.buf[..];
             assert!(out.len() == 6);
-            assert!(out[0] == b'%' && out[1] == hex(bytes[0] >> 4) && out[2] == hex(bytes[0] & 15));
-            assert!(out[3] == b'%' && out[4] == hex(bytes[1] >> 4) && out[5] == hex(bytes[1] & 15));
+            assert!(out[0] == b'%' && hexeq(out[1], bytes[0] >> 4) && hexeq(out[2], bytes[0] & 15));
+            assert!(out[3] == b'%' && hexeq(out[4], bytes[1] >> 4) && hexeq(out[5], bytes[1] & 15));
             std::mem::forget(ub);
         }
         kani::cover!(true);
@@ -173,7 +177,7 @@ mod verif_c07 {
         if unreserved(b) {
             assert!(out.len() == 4 && out[3] == b);
         } else {
-            assert!(out.len() == 6 && out[3] == b'%' && out[4] == hex(b >> 4) && out[5] == hex(b & 15));
+            assert!(out.len() == 6 && out[3] == b'%' && hexeq(out[4], b >> 4) && hexeq(out[5], b & 15));
         }
         kani::cover!(in_path);
         kani::cover!(!in_path);
@@ -196,7 +200,7 @@ mod verif_c07 {
         if unreserved(b) {
             assert!(out.len() == 2 && out[1] == b);
         } else {
-            assert!(out.len() == 4 && out[1] == b'%' && out[2] == hex(b >> 4) && out[3] == hex(b & 15));
+            assert!(out.len() == 4 && out[1] == b'%' && hexeq(out[2], b >> 4) && hexeq(out[3], b & 15));
         }
         kani::cover!(true);
         std::mem::forget(ub);
